@@ -37,6 +37,8 @@ def prove_targets(db, targets, lemmas=(), timeout_ms=20000, verbose=False):
                 rec = fi.record()
                 rec["contract"] = c2.target
                 rec["obligations"] = len(o)
+                if c2.options.get("glue"):
+                    rec["no_fuzz"] = True  # trace contracts of orchestration code have no concrete evaluator
                 funcs.append(rec)
             except Unsupported as e:
                 undecided.append({"function": tgt, "contract": c2.target, "reason": "Unsupported: %s" % e})
